@@ -36,6 +36,11 @@ package regprocessor
 //@   atcall randomInt#1 before: assert @C12: forall j int :: 0 <= j && j < len(p.exclusionsFromOverride) ==> !ipnContains(p.exclusionsFromOverride[j].CIDR.IPNet, ipv4FromRegResponse)
 // C12: the substituted subnet is the weighted choice: the first subnet whose cumulative weight exceeds the draw
 // (so every subnet with a non-zero weight is chosen for the draws in its own interval)
+// ... and the number that picks the subnet is a draw of its own (uniform over [0,1)), not a function of the draw that
+// decides WHETHER this registration is overridden - otherwise only the subnets whose interval lies below the override
+// percentage could ever be chosen
+//@   atcall rand.Float64 after: snap pick := res
+//@   atcall getRandUint32IPv4 before: assert @C12: defined(pick) && randVal == pick
 //@   atcall getRandUint32IPv4#1 before: assert @C12: exists k int :: 0 <= k && k < len(p.minOverrideSubnetsCumulativeWeights) && randVal < p.minOverrideSubnetsCumulativeWeights[k] && (forall j int :: 0 <= j && j < k ==> !(randVal < p.minOverrideSubnetsCumulativeWeights[j])) && ipNet == p.minOverrideSubnets[k].CIDR.IPNet
 //@   atcall getRandUint32IPv4#2 before: assert @C12: exists k int :: 0 <= k && k < len(p.prefixOverrideSubnetsCumulativeWeights) && randVal < p.prefixOverrideSubnetsCumulativeWeights[k] && (forall j int :: 0 <= j && j < k ==> !(randVal < p.prefixOverrideSubnetsCumulativeWeights[j])) && ipNet == p.prefixOverrideSubnets[k].CIDR.IPNet
 // C12 "registrar overrides of transport parameters only when the client has not disabled them": the configured
